@@ -898,9 +898,6 @@ void annotatorCells()
     CELL("Annotator::assignId(VariablePairPtr,CellmlElementType)", "arg1=null", R, [](Fx &fx) {
         size_t n = fx.an->issueCount();
         return withIssues(*fx.an, n, ofStr(fx.an->assignId(VariablePairPtr(), CellmlElementType::MAP_VARIABLES))); }, prepNormal);
-    CELL("Annotator::assignId(VariablePtr,VariablePtr,CellmlElementType)", "arg1,arg2=not-equivalent", R, [](Fx &fx) {
-        size_t n = fx.an->issueCount();
-        return withIssues(*fx.an, n, ofStr(fx.an->assignId(fx.x, fx.y, CellmlElementType::MAP_VARIABLES))); }, prepNormal);
     methods.push_back({"Annotator::assignId(ModelPtr,CellmlElementType)", [](Annotator &a, Fx &fx) { return ofStr(a.assignId(fx.m, CellmlElementType::MODEL)); }});
     methods.push_back({"Annotator::assignId(ComponentPtr,CellmlElementType)", [](Annotator &a, Fx &fx) { return ofStr(a.assignId(fx.c1, CellmlElementType::COMPONENT)); }});
     methods.push_back({"Annotator::assignId(ResetPtr,CellmlElementType)", [](Annotator &a, Fx &fx) { return ofStr(a.assignId(fx.r, CellmlElementType::RESET)); }});
